@@ -126,19 +126,22 @@ func checkWalkState(r *evid.Run, d *DocState, concs []*tok.Conc) {
 		apiMu.Lock()
 		for i, t := range d.Forest {
 			wantR := expectWalk(byRoot[i], c)
+			// ONE programmatic tree is walked again and again (every stop position, both walkers): a walk must
+			// leave the tree as it found it
+			reused := buildRoot(t, c)
 			for k := 0; k <= len(wantR); k++ {
 				wantK, wantErr := wantR, error(nil)
 				if k > 0 {
 					wantK, wantErr = wantR[:k], real.ErrInjected
 				}
-				got, o := real.WalkRoot(buildRoot(t, c), k, real.ErrInjected, bo...)
+				got, o := real.WalkRoot(reused, k, real.ErrInjected, bo...)
 				r.Count("real_calls", 1)
 				if o.Class() != "ok" && o.Class() != "err" || o.Err != wantErr || !sameWalk(got, wantK) {
 					r.Mismatch("walk-root:records", fmt.Sprintf("tree#%d of doc=%q conc=%s k=%d want=%v/%v got=%v/%v %s", i, doc, c.Name, k, wantK, wantErr, got, o.Err, firstLine(o.Panic)),
 						walkReplay{Doc: d.Doc, Conc: c, Bytes: doc, Route: "walk-root", StopAt: k, Want: wantK, Got: got, Err: o.ErrString()})
 					break
 				}
-				got, o = real.WalkIterRoot(buildRoot(t, c), k, bo...)
+				got, o = real.WalkIterRoot(reused, k, bo...)
 				r.Count("real_calls", 1)
 				if o.Class() != "ok" || !sameWalk(got, wantK) {
 					r.Mismatch("walk-iter:records", fmt.Sprintf("tree#%d of doc=%q conc=%s break=%d want=%v got=%v/%v %s", i, doc, c.Name, k, wantK, got, o.Err, firstLine(o.Panic)),
